@@ -98,6 +98,51 @@ def runDe : P String := do
     let cfg : DeConfig := { maxSeqSize := maxSeq, allowedDepth := depth }
     pure (fmtDe (deOne cfg S root depth hint (mk bs)))
 
+/-- drop the `borrowed` flags: the only difference allowed between back-ends on success -/
+partial def unborrow : Out → Out
+  | .str s _ => .str s false
+  | .bytes b _ => .bytes b false
+  | .some o => .some (unborrow o)
+  | .seq items => .seq (items.map unborrow)
+  | .map es => .map (es.map fun (k, v) => (unborrow k, unborrow v))
+  | .variant n p => .variant (unborrow n) (unborrow p)
+  | o => o
+
+/-- hinted result vs full result: ignored parts (`unit`) match anything, a unit variant matches
+    whatever the branch held, a newtype variant's payload matches the branch's value -/
+partial def consistentOut : Out → Out → Bool
+  | .unit, _ => true
+  | .variant _ .unit, _ => true
+  | .variant _ p, full => consistentOut p full
+  | .seq a, .seq b => a.length == b.length && (a.zip b).all fun (x, y) => consistentOut x y
+  | .map a, .map b =>
+    a.length == b.length && (a.zip b).all fun ((k1, v1), (k2, v2)) => consistentOut k1 k2 && consistentOut v1 v2
+  | .some a, .some b => consistentOut a b
+  | a, b => outToString (unborrow a) == outToString (unborrow b)
+
+/-- `skip <backend> <schema> <hint> <bytes>`: a target that ignores parts of the datum.
+    Oracle (C12): when the full read succeeds, the partial read succeeds, leaves exactly the same
+    bytes unread, and every part it did read is what the full read delivered there. -/
+def runSkip : P String := do
+  let mk ← pBackend (fun b => { rest := b })
+  let sm ← pSchemaMut
+  let hint ← pHint
+  let bs ← pBytes
+  let S := freezeNodes sm
+  match S[0]? with
+  | none => pure "noroot"
+  | some root =>
+    let a := deOne {} S root 64 hint (mk bs)
+    let b := deOne {} S root 64 .any (mk bs)
+    let verdict := match a, b with
+      | .ok (oa, la), .ok (ob, lb) =>
+        if la ≠ lb then "VIOLATION skipping consumed a different number of bytes than reading"
+        else if !consistentOut oa ob then "VIOLATION a value read next to an ignored part differs from the full read"
+        else "ok"
+      | .error _, .ok _ => "VIOLATION the full read succeeds but the read that ignores parts fails"
+      | _, .error _ => "n/a the encoding is not readable in full"
+    pure s!"{fmtDe a} | {fmtDe b} # {verdict}"
+
 /-- `dealloc <maxSeq> <depth> <schema> <bytes>`: slice input, `IgnoredAny` target. The model's slice
     back-end has no buffer at all; the oracle is that the real code made no heap allocation. -/
 def runDealloc : P String := do
@@ -115,16 +160,6 @@ def runDealloc : P String := do
     | .error .custom => pure "err custom"
     | .error .io => pure "err io"
     | .error .panic => pure "panic"
-
-/-- drop the `borrowed` flags: the only difference allowed between back-ends on success -/
-partial def unborrow : Out → Out
-  | .str s _ => .str s false
-  | .bytes b _ => .bytes b false
-  | .some o => .some (unborrow o)
-  | .seq items => .seq (items.map unborrow)
-  | .map es => .map (es.map fun (k, v) => (unborrow k, unborrow v))
-  | .variant n p => .variant (unborrow n) (unborrow p)
-  | o => o
 
 /-- outcome up to what C11 allows to differ: the error class and the `borrowed` flags -/
 def c11Key : Except DeErr (Out × Nat) → String
@@ -658,6 +693,7 @@ def dispatch (line : String) : String :=
       | "crc" => some runCrc
       | "de" => some runDe
       | "c11" => some runC11
+      | "skip" => some runSkip
       | "dealloc" => some runDealloc
       | "rt" => some runRt
       | "single" => some runSingle
